@@ -150,6 +150,7 @@ is_good_norm(ibz_t *N)
         ibz_printf(
             "WARNING: short vectors not short enough...\n2-pow = %Zd\nnorm = %Zd\n", &pow2, &N);
         // assert(0);
+        ibz_finalize(&pow2);
         ibz_finalize(&sum_of_squares_candidate);
         return 0;
     }
